@@ -761,15 +761,43 @@ func opSet(r *Run, o *simObj, what string) {
 	}
 	cur := getAt(o.model, pos)
 	var it simdjson.Iter
+	itp := &it
 	var err error
+	var els *simdjson.Elements // nav 2: the member is addressed through the Elements of its object
 	nav := c.Intn("nav", 2)
-	if nav == 0 {
+	if len(pos) >= 2 && getAt(o.model, pos[:len(pos)-1]).K == KObject && c.Intn("navelems", 5) == 0 {
+		nav = 2
+	}
+	switch nav {
+	case 0:
 		it, err = locateFlat(o.pj, pos)
-	} else {
+	case 1:
 		it, _, err = locateAPI(o.pj, o.model, pos)
+	case 2:
+		var pit simdjson.Iter
+		pit, _, err = locateAPI(o.pj, o.model, pos[:len(pos)-1])
+		if err == nil {
+			err = safely(func() error {
+				obj, e := pit.Object(nil)
+				if e != nil {
+					return e
+				}
+				els, e = obj.Parse(nil)
+				if e != nil {
+					return e
+				}
+				if x := pos[len(pos)-1]; x >= len(els.Elements) {
+					return fmt.Errorf("Object.Parse returned %d elements, member #%d missing", len(els.Elements), x)
+				}
+				return nil
+			})
+		}
+		if err == nil {
+			itp = &els.Elements[pos[len(pos)-1]].Iter
+		}
 	}
 	if err != nil {
-		walkerFail(r, []string{"W-into", "W-adv"}[nav], fmt.Sprintf("%s: navigating to %v", what, pos), err)
+		walkerFail(r, []string{"W-into", "W-adv", "W-aiter"}[nav], fmt.Sprintf("%s: navigating to %v", what, pos), err)
 		return
 	}
 	kind := c.Intn("setkind", 7)
@@ -782,22 +810,22 @@ func opSet(r *Run, o *simObj, what string) {
 	case 0:
 		name = "SetNull"
 		nv, allowed = mvNull(), true
-		call = func() error { return it.SetNull() }
+		call = func() error { return itp.SetNull() }
 	case 1:
 		b := c.Intn("setbool", 2) == 1
 		name = fmt.Sprintf("SetBool(%v)", b)
 		nv, allowed = mvBool(b), cur.K == KBool || cur.K == KNull
-		call = func() error { return it.SetBool(b) }
+		call = func() error { return itp.SetBool(b) }
 	case 2:
 		v := setValsInt[c.Intn("setint", len(setValsInt))]
 		name = fmt.Sprintf("SetInt(%d)", v)
 		nv, allowed = mvInt(v), isNumStr
-		call = func() error { return it.SetInt(v) }
+		call = func() error { return itp.SetInt(v) }
 	case 3:
 		v := setValsUint[c.Intn("setuint", len(setValsUint))]
 		name = fmt.Sprintf("SetUInt(%d)", v)
 		nv, allowed = mvUint(v), isNumStr
-		call = func() error { return it.SetUInt(v) }
+		call = func() error { return itp.SetUInt(v) }
 	case 4:
 		var v float64
 		if c.Intn("setnonfinite", 12) == 11 {
@@ -813,17 +841,17 @@ func opSet(r *Run, o *simObj, what string) {
 		}
 		name = fmt.Sprintf("SetFloat(%v)", v)
 		nv, allowed = mvFloat(v), isNumStr
-		call = func() error { return it.SetFloat(v) }
+		call = func() error { return itp.SetFloat(v) }
 	case 5:
 		s := drawSetString(c)
 		name = fmt.Sprintf("SetString(%s)", shortBytes(s))
 		nv, allowed = mvString(s), isNumStr
-		call = func() error { return it.SetString(string(s)) }
+		call = func() error { return itp.SetString(string(s)) }
 	case 6:
 		s := drawSetString(c)
 		name = fmt.Sprintf("SetStringBytes(%s)", shortBytes(s))
 		nv, allowed = mvString(s), isNumStr
-		call = func() error { return it.SetStringBytes(s) }
+		call = func() error { return itp.SetStringBytes(s) }
 	}
 	r.trace("%s: %s at %v (%s, nav %d)", what, name, pos, cur.K, nav)
 	var serr error
@@ -845,10 +873,30 @@ func opSet(r *Run, o *simObj, what string) {
 		r.stat("set_applied", 1)
 		// the iterator itself must now read back the new value
 		if !nv.isContainer() {
-			got, err := scalarOf(&it, it.Type())
+			got, err := scalarOf(itp, itp.Type())
 			if err != nil || Diff(nv, got, EqExact) != "" {
 				r.violate("set", "iter-stale", fmt.Sprintf("%s: after %s the same iterator reads %v (%v)", what, name, got, err))
 			}
+		}
+		if els != nil && !r.failed() {
+			// the Elements the value was addressed through marshals the object with the new value
+			par := getAt(o.model, pos[:len(pos)-1])
+			var all []byte
+			var merr error
+			if e := safely(func() error { all, merr = els.MarshalJSON(); return nil }); e != nil {
+				walkerFail(r, "W-marshal", what+": Elements.MarshalJSON after "+name, e)
+				return
+			}
+			if merr != nil {
+				if !hasNonFinite([]*MV{par}) {
+					r.violate("W-marshal", "inner-error:"+msgClass(merr.Error()), fmt.Sprintf("%s: Elements.MarshalJSON after %s through its own iterator: %v", what, name, merr))
+				}
+			} else if hasNonFinite([]*MV{par}) {
+				r.violate("W-marshal", "nonfinite-emitted", what+": Elements.MarshalJSON emitted a non-finite float: "+string(shortBytes(all)))
+			} else {
+				checkMarshalText(r, all, []*MV{par}, false, fmt.Sprintf("%s: Elements.MarshalJSON after %s through the Elements' own iterator", what, name))
+			}
+			r.stat("set_through_elements", 1)
 		}
 	} else {
 		if serr == nil {
@@ -858,7 +906,7 @@ func opSet(r *Run, o *simObj, what string) {
 		r.stat("set_disallowed", 1)
 		// a rejected call changes nothing - not even what the same iterator does next
 		if !cur.isContainer() {
-			got, err := scalarOf(&it, it.Type())
+			got, err := scalarOf(itp, itp.Type())
 			if err != nil || Diff(cur, got, EqExact) != "" {
 				r.violate("set", "iter-changed-by-rejected-call", fmt.Sprintf("%s: after the rejected %s the same iterator reads %v (%v) instead of %s", what, name, got, err, cur.short()))
 				return
@@ -867,7 +915,7 @@ func opSet(r *Run, o *simObj, what string) {
 		if c.Intn("followup", 2) == 1 {
 			// SetNull is allowed on every value type: apply it through the very same iterator
 			var nerr error
-			if e := safely(func() error { nerr = it.SetNull(); return nil }); e != nil {
+			if e := safely(func() error { nerr = itp.SetNull(); return nil }); e != nil {
 				walkerFail(r, "set", what+": SetNull after a rejected "+name, e)
 				return
 			}
